@@ -5,7 +5,7 @@ CONSTANTS
   MaxH = 4
   MaxPersist = 5
   MaxFaults = 2
-  TxSeqs <- TxSeqsQuick
+  TxSeqs <- TxSeqsThorough
   Cnts = {0, 2}
 INVARIANTS Inv_Covers Inv_C09_HashLinked Inv_C09_RootsMatch Inv_C09_IndexAgree Inv_C09_MetaAgree Inv_C09_NothingAboveAfterRollback Inv_C12_RefusedNoChange Inv_Heights
 CHECK_DEADLOCK FALSE
